@@ -111,8 +111,10 @@ def convert_grid_2d(
     is_native = len(grid_2d.shape) == 3
 
     if is_native:
-        grid_2d[:, :, 0] *= np.invert(mask_2d)
-        grid_2d[:, :, 1] *= np.invert(mask_2d)
+        # masked pixels are set to zero by assignment: a product with the inverted mask leaves NaN wherever the
+        # input holds inf or NaN at a masked pixel (e.g. `1.0 / grid` of a natively stored grid, whose masked
+        # pixels are zero)
+        grid_2d[np.array(mask_2d, dtype="bool"), :] = 0
 
     if is_native == store_native:
         return grid_2d
